@@ -46,7 +46,12 @@ TIESKEL = ["JanetModel.Peg.TieSkel." + t for t in (
     # the loop cases without fuel hypotheses (fuel-free meaning `Skel.Returns`), bounds from the window invariant
     "rule_to_thru_returns", "rule_til_returns", "rule_choice_returns", "rule_sequence_returns", "rule_lenprefix_returns",
     "rule_unref_returns", "rule_between_returns", "rule_split_returns", "rule_to_thru_text_bound", "rule_til_text_bound",
-    "betweenLoop_mono", "splitLoop_mono")]
+    "betweenLoop_mono", "splitLoop_mono") + tuple(
+    # operand layout extracted: the same programs on the RAW words of the bytecode at pc = Op.step of what Decode.decode returns
+    "decoded_" + x for x in (
+        "if", "ifnot", "not", "drop", "only_tags", "sub", "accumulate", "capture", "position", "constant", "group", "nth", "error",
+        "nchar", "notnchar", "line", "column", "argument", "replace", "matchtime", "range", "look", "capture_num", "literal", "set",
+        "to", "thru", "til", "lenprefix", "between", "split", "unref", "gettag", "backmatch", "choice", "sequence"))]
 ENTRIES = ("match", "find", "findall", "replace", "replaceall")
 
 
@@ -576,7 +581,8 @@ def tieskel_failures(ctx):
             lines = f.read().splitlines()
     except OSError:
         return []
-    starts = [(i + 1, m.group(1)) for i, l in enumerate(lines) for m in [re.match(r"theorem (\w+)", l)] if m]
+    starts = [(i + 1, m.group(1) or "example at line %d" % (i + 1)) for i, l in enumerate(lines)
+              for m in [re.match(r"(?:theorem (\w+)|example\b|def \w+|macro\b)", l)] if m]
     out = []
     for m in re.finditer(r"error: [^\n]*TieSkel\.lean:(\d+):", log):
         ln = int(m.group(1))
